@@ -49,7 +49,7 @@ def main():
             "add_only": True,
         },
         "engines": [
-            {"name": e, "path": f"/verif/harness/vh/src/bin/{e.split()[0]}.rs" if not e.startswith("corpus") else "/verif/corpus",
+            {"name": e, "path": {"fpcfg": "/verif/harness/fpcfg/src/main.rs", "corpus": "/verif/corpus"}.get(e.split()[0], f"/verif/harness/vh/src/bin/{e.split()[0]}.rs"),
              "serves_properties": sorted(ps), "kind_free_text": "bounded exhaustive exploration of the real code against an independent reference model"}
             for e, ps in sorted(engines.items())
         ],
